@@ -157,9 +157,12 @@ struct StateOut {
     cov: Cov,
 }
 
+thread_local! { static CUR_PROBE: std::cell::Cell<Option<usize>> = const { std::cell::Cell::new(None) }; }
+
 /// Run `hist` on a fresh system inside a fresh allocator window; `f` receives the system after the
 /// history was applied. Prefix oracles are off except for the last operation.
 fn execute<S: Sys, T>(sc: &Scope, hist: &[Op], verify_last: bool, f: impl FnOnce(S) -> Result<T, Viol>) -> Result<T, Viol> {
+    crate::crash::note(sc.name, hist, CUR_PROBE.with(|p| p.get()));
     fresh_window();
     let res = (|| {
         let mut s = S::create(sc);
@@ -458,7 +461,10 @@ fn expand<S: Sys>(sc: &Scope, prop: &str, probes: &Probes, table: &[Entry], inde
     for i in 0..np {
         so.executions += 1;
         so.probe_runs += 1;
-        if let Err(v) = execute::<S, ()>(sc, &hist, false, |s| s.probe(probes, i)) {
+        CUR_PROBE.with(|p| p.set(Some(i)));
+        let r = execute::<S, ()>(sc, &hist, false, |s| s.probe(probes, i));
+        CUR_PROBE.with(|p| p.set(None));
+        if let Err(v) = r {
             note(&mut so, hist.clone(), v, Some(i));
         }
     }
